@@ -125,8 +125,20 @@ fn show_rule(r: &Rule) -> String {
         name_id(&r.name),
         r.salience,
         if r.enabled { 1 } else { 0 },
-        r.description.clone().unwrap_or_else(|| "?".into())
+        tag_of(r)
     )
+}
+
+/// the tag of a rule: its description; a rule loaded from GRL text has none (the parser drops it), and carries
+/// its tag as the value its action assigns to Y
+fn tag_of(r: &Rule) -> String {
+    if let Some(d) = &r.description {
+        return d.clone();
+    }
+    match r.actions.first() {
+        Some(rust_rule_engine::types::ActionType::Set { field, value: Value::Integer(n) }) if field == "Y" => n.to_string(),
+        _ => "?".into(),
+    }
 }
 
 fn show_orule(r: &Option<Rule>) -> String {
@@ -224,12 +236,12 @@ fn snapshot(kb: &KnowledgeBase, k: u32) -> String {
     let mut byidx: Vec<String> = bysal
         .iter()
         .map(|i| match kb.get_rule_by_index(*i) {
-            Some(r) => r.description.unwrap_or_else(|| "?".into()),
+            Some(r) => tag_of(&r),
             None => "x".into(),
         })
         .collect();
     byidx.push(match kb.get_rule_by_index(count) {
-        Some(r) => r.description.unwrap_or_else(|| "?".into()),
+        Some(r) => tag_of(&r),
         None => "x".into(),
     });
     let lookups: Vec<String> = (0..k).map(|n| show_orule(&kb.get_rule(&rule_name(n)))).collect();
@@ -280,6 +292,33 @@ fn exec(case: &str) -> String {
         Some("S") | Some("T") if t.len() == 3 => {
             let (Some(k), Some(ops)) = (t[1].parse::<u32>().ok(), parse_ops(t[2])) else { return "bad-case".into() };
             exec_seq(t[0] == "T", k, &ops)
+        }
+        // bulk case := `B <K> <pre ops> <adds>`: the pre ops one by one, then ALL the adds through ONE
+        // `add_rules_from_grl(text)` call (the twin entry point of add_rule); obs := g<count>|gerr : version / snapshot
+        Some("B") if t.len() == 4 => {
+            let (Some(k), Some(pre), Some(bulk)) = (t[1].parse::<u32>().ok(), parse_ops(t[2]), parse_ops(t[3])) else {
+                return "bad-case".into();
+            };
+            let kb = KnowledgeBase::new("kb");
+            for (i, op) in pre.iter().enumerate() {
+                apply(&kb, op, i);
+            }
+            let mut text = String::new();
+            for (j, op) in bulk.iter().enumerate() {
+                let Op::Add(n, sal, true) = op else { return "bad-case".into() };
+                text.push_str(&format!(
+                    "rule \"{}\" \"{}\" salience {} {{ when X == 1 then Y = {}; }}\n",
+                    rule_name(*n),
+                    pre.len() + j,
+                    sal,
+                    pre.len() + j
+                ));
+            }
+            let res = match kb.add_rules_from_grl(&text) {
+                Ok(c) => format!("g{}", c),
+                Err(_) => "gerr".to_string(),
+            };
+            format!("{}:{}/{}", res, kb.version(), snapshot(&kb, k))
         }
         Some("C") if t.len() >= 3 => {
             let Some(pre) = parse_ops(t[1]) else { return "bad-case".into() };
@@ -502,6 +541,17 @@ fn gen(rng: &mut Rng, n: usize, tier: &str) -> Vec<String> {
     for _ in 0..(n / 25).max(8) {
         out.push(large_case(rng));
     }
+    // (2c) bulk loading: the twin entry point `add_rules_from_grl` (one GRL text = several add_rule calls in
+    // source order, stopping at the first error): texts of 1..8 rules over a few names, with names repeated inside
+    // the text, names already stored, salience ties, after a random pre-history
+    for _ in 0..(n / 10).max(40) {
+        let names = *rng.pick(&[2u32, 3, 4, 6]);
+        let pre: Vec<Op> = (0..rng.below(5)).map(|_| random_mutator(rng, names, &SALS)).collect();
+        let bulk: Vec<Op> = (0..rng.range(1, 8))
+            .map(|_| Op::Add(rng.below(names as u64 + 2) as u32, *rng.pick(&SALS), true))
+            .collect();
+        out.push(format!("B {} {} {}", names + 2, show_ops(&pre), show_ops(&bulk)));
+    }
     // (3) concurrent histories: 3 threads x 4 calls on a shared knowledge base
     for _ in 0..(n / 8).max(1) {
         let names = *rng.pick(&[2u32, 3, 3, 4]);
@@ -522,6 +572,18 @@ fn shrink(case: &str) -> Vec<String> {
             if let Some(ops) = parse_ops(t[2]) {
                 for v in shrink_list(&ops) {
                     out.push(format!("{} {} {}", t[0], t[1], show_ops(&v)));
+                }
+            }
+        }
+        Some("B") if t.len() == 4 => {
+            if let (Some(pre), Some(bulk)) = (parse_ops(t[2]), parse_ops(t[3])) {
+                for v in shrink_list(&pre) {
+                    out.push(format!("B {} {} {}", t[1], show_ops(&v), t[3]));
+                }
+                for v in shrink_list(&bulk) {
+                    if !v.is_empty() {
+                        out.push(format!("B {} {} {}", t[1], t[2], show_ops(&v)));
+                    }
                 }
             }
         }
